@@ -297,3 +297,13 @@ def validate_parallel(trace_module, cfg, traces, nproc=8, chunk=400, timeout=180
         res.extend(r)
         runs.append(t)
     return res, runs
+
+
+def cex_summary(out, var=None, last=1):
+    """action names of a TLC counterexample and (optionally) one variable of the last states"""
+    acts = re.findall(r"State \d+: <(\w+)[^>]*>", out)
+    states = re.split(r"\nState \d+: ", out)
+    tail = []
+    for st in states[-last:]:
+        tail.append(st[:3000])
+    return acts, tail
